@@ -268,6 +268,24 @@ func runC20Paths(w *world.World, c caseC20, rec *kit.Recorder) error {
 	if paused.Success {
 		return fmt.Errorf("PauseCrossChains(%s,[%q]) succeeded but a transfer to domain %d still passes", name, c.Counterparty, v)
 	}
+	// (3c) a pause accepted while the protocol was paused as a whole names the same transfers:
+	// once the protocol-level pause is lifted, the identifier is still paused and still covers them
+	if pres.OK() {
+		umsg, _ := kit.BuildAdmin(kit.Admin{Kind: "unpause_protocol", Protocol: name})
+		if r := w.Tx(pctx, umsg); !r.OK() {
+			return fmt.Errorf("harness: unpausing %s failed: %v", name, r.Err)
+		}
+		var uq forwardertypes.QueryIsCrossChainPausedResponse
+		if err := w.Query(pctx, fwdQuery+"IsCrossChainPaused", &forwardertypes.QueryIsCrossChainPausedRequest{ProtocolId: name, CounterpartyId: c.Counterparty}, &uq); err != nil || !uq.IsPaused {
+			return fmt.Errorf("PauseCrossChains(%s,[%q]) succeeded while %s was paused as a whole, but after UnpauseProtocol the identifier is not paused (query: %v %v)", name, c.Counterparty, name, uq.IsPaused, err)
+		}
+		if out := world.Recv(pctx, w.Stack, p); out.Success {
+			return fmt.Errorf("PauseCrossChains(%s,[%q]) succeeded while %s was paused as a whole, but after UnpauseProtocol a transfer to domain %d passes", name, c.Counterparty, name, v)
+		}
+		rec.Label("paths", "coupled probe: paused under a protocol-level pause, still covered after it is lifted")
+	} else {
+		return fmt.Errorf("with %s paused as a whole, PauseCrossChains refuses the canonical domain %q: %v", name, c.Counterparty, pres.Err)
+	}
 	if unpaused.Success {
 		rec.Label("paths", "coupled probe: passes unpaused, refused paused")
 	}
